@@ -25,7 +25,14 @@ func installPassOrder(c *Ctl) func() {
 		}
 		sort.Strings(names)
 		if seed != 0 && len(names) > 1 {
-			key := strings.Join(names, ",")
+			// (the key identifies the graph: stage names may be shared with other graphs, the
+			// world-unique names are not - a counter shared by two graphs would make the order
+			// depend on which of their loops the runtime wakes first)
+			uniq := make([]string, 0, len(names))
+			for _, n := range names {
+				uniq = append(uniq, uniqOf(m[n]))
+			}
+			key := strings.Join(uniq, ",")
 			mu.Lock()
 			k := count[key]
 			count[key] = k + 1
